@@ -218,4 +218,23 @@ CHECKS = {
             dict(name="escape", run="^TestEscape$", quick=80, thorough=800, shards=4),
         ],
     ),
+    "C13": dict(
+        pkg="c13", level="fault_enumeration",
+        rule=("stream leg: generated archives (1..6 entries, sizes around the 512-byte block and, sometimes, one entry >150 KiB) fed through a harness-owned reader in 512-byte blocks that parks at a generated block, with a generated fault there (none/truncate/reader error/cancel), "
+              "optionally one entry's destination write held so that the file is visibly incomplete, and 1..8 Open calls launched while the stream is parked, right after the fault, or after Done (entries not yet reached / being written / written, directories, missing names). "
+              "cuts leg: per generated archive EVERY cut block x {truncate, error, cancel}. destfaults leg: per generated archive a failure at EVERY destination call index. hooked leg: tar's own goroutines parked at the verifPoint markers (before the unpack error is stored, before a file is announced) "
+              "while every entry is opened. stress leg: the same cases free-running, 60 repetitions each. pubsub / bufferpool legs: model-based sequences on the exported components (Wait returns iff emitted or cancelled; outstanding <= max, right size, no starvation). "
+              "Oracle: an Open that succeeds on a regular entry reads exactly the entry's bytes (also after Done); Done and every Open return within the watchdog once the stream ended, failed or was cancelled; a fault-free stream yields no error. non-trivial = an Open issued while something was parked; every cuts/destfaults/hooked/stress case"),
+        assumptions=["'eventually returns' is observed as 'returned within the watchdog'", "schedules are owned at the archive reader, at destination calls and at three verifPoint markers inside tar; everything else is free-running"],
+        legs=[
+            dict(name="stream", run="^TestStream$", quick=250, thorough=3000, shards=6),
+            dict(name="cuts", run="^TestCuts$", quick=25, thorough=300, shards=6),
+            dict(name="destfaults", run="^TestDestFaults$", quick=40, thorough=500, shards=4),
+            dict(name="hooked", run="^TestHooked$", quick=200, thorough=2500, shards=2),
+            dict(name="stress", run="^TestStress$", quick=40, thorough=600, shards=8),
+            dict(name="pubsub", run="^TestPubsub$", quick=150, thorough=1500, shards=2),
+            dict(name="pubsubburst", run="^TestPubsubBurst$", quick=30, thorough=300, shards=4),
+            dict(name="bufferpool", run="^TestBufferPool$", quick=100, thorough=1000, shards=2),
+        ],
+    ),
 }
